@@ -298,6 +298,12 @@ def build(rec: Dict[str, Any], seed: int, axis_aligned: bool = False) -> Built:
       sens.append(f'<framequat objtype="geom" objname="g{nb}" reftype="body" refname="b1"/>')
     for t in tendon_names:
       sens.append(f'<tendonpos tendon="{t}"{cut()}/>')
+      if lim_t:
+        sens.append(f'<tendonlimitpos tendon="{t}"/><tendonlimitvel tendon="{t}"/><tendonlimitfrc tendon="{t}"/>')
+    if lim_j:
+      for name, jt, b in out.joints:
+        if jt in ("hinge", "slide"):
+          sens.append(f'<jointlimitpos joint="{name}"/><jointlimitvel joint="{name}"/><jointlimitfrc joint="{name}"/>')
     sens.append('<clock/>')
     if F("camlight"):
       sens.append('<framepos objtype="camera" objname="c1"/><framequat objtype="camera" objname="c1"/>')
